@@ -58,8 +58,20 @@ func genPayload66(r *Rng) ([]byte, string) {
 	case k < 40:
 		// a few stray bytes in front of a canonical encoding (a function selector, say): the words then read differently
 		return append(r.Bytes([]int{4, 4, 4, 1, 8, 32}[r.Intn(6)]), enc...), "prefixed"
-	case k < 50: // truncation at a random length
+	case k < 48: // truncation at a random length
 		return enc[:r.Intn(len(enc)+1)], "truncated"
+	case k < 54:
+		// a LENGTH word just below 2^64, so that start + length wraps to a position at or before the start of the data
+		// (start = 96 for the key, 160 + the padded key for the value), or lands just after it
+		pos := []int{64, 64 + 32 + (len(key)+31)/32*32}[r.Intn(2)]
+		start := uint64(pos + 32)
+		kk := uint64(1 + r.Intn(int(start)+8))
+		if r.Chance(30) {
+			kk = []uint64{1, 32, start, start - 1, start + 1}[r.Intn(5)]
+		}
+		w := new(uint256.Int).Sub(new(uint256.Int).Lsh(uint256.NewInt(1), 64), uint256.NewInt(kk))
+		copy(enc[pos:], word32(w))
+		return enc, "length-wrap"
 	case k < 75: // a head or length word replaced by a boundary value
 		pos := []int{0, 32, 64, 64 + 32 + (len(key)+31)/32*32}[r.Intn(4)]
 		var w *uint256.Int
